@@ -23,8 +23,10 @@ def demo():
         return sh('go run .', cwd=src)
     if mode.startswith('gorun:'):
         return sh('go run .', cwd=os.path.join(src, mode.split(':', 1)[1]))
+    if mode.startswith('cmd:'):
+        return sh(mode[4:])
     if mode == 'sh':
-        return sh(f'sh {src}/demo.sh')
+        return sh(f"bash {src}/demo.sh")
     if mode == 'tree':
         return sh(f'sh {src}/demo.sh {wt}')
     rc, out = sh('go build -o /tmp/.seed_goawk .', cwd=wt)
